@@ -43,7 +43,24 @@ RULE = ('codec: random keyword sets over all 16 ControlParameters fields (values
         'x front-end x {register, unregister after a successful register, first of two routes declared before connecting '
         '(the starting task must go on and after_start must run), first and last of three concurrent calls}: the call '
         'returns False without raising and the following commands go out. non-trivial = at least two commands or a non-200 '
-        'reply; distinct by hash of (front-end, clock, events)')
+        'reply; distinct by hash of (front-end, clock, events). management-model family: for EVERY TlvModel class of '
+        'nfd_mgmt found on this run (control parameters, control response, every status dataset: FaceStatus, FaceQueryFilter, '
+        'RibStatus/RibEntry/Route, FibStatus, StrategyChoice, CsInfo, GeneralStatus, FaceEventNotification ...; must be the 20 of '
+        'Model/NfdMgmt.v nfd_models) values of every field - ordinary fields from the C08 generators (0/255/256/../2^64-1, texts, '
+        'names, 1-3 repeated sub-models, absent fields), enumerated fields (T1: val_base_type read off the class on this run; table '
+        'compared with Generated/NfdEnums.v) from their protocol domain as the extracted Spec/NfdEnums.domain gives it: every member, '
+        'for the bit fields Flags(0x6c)/Mask(0x70) every union of declared bits incl. none (bit field = fact of the wire protocol, '
+        'NOT the Python kind of the type), plus unknown neighbours (top+1, top+2, 255, 256, 65535, 65536, 2^32-1, 2^32, 2^64-1); '
+        'enumerated: (enumerated field reachable from the class) x (number) x (given as a number / written with the enum type: '
+        'member, or members joined with |), plus random values per class. Each value is built by attribute assignment (lists '
+        'assigned or appended to), encoded (wire compared with the model), decoded with Cls.parse (stored fields compared with the '
+        'model) and EVERY attribute is read by plain attribute access, recursively; numbers compared as int(x.value)/int(x); a bit '
+        'field answers MEMBER in obj.flags by its bits; typed_read of the model compared with the implementation on every number. '
+        'Oracle: reading never raises and returns the encoded value for every number of the protocol domain (unknown numbers: '
+        'refusal with ValueError is counted, stored number compared). command family: every member / every union (both orders) of '
+        'RouteFlags -> rib/register, rib/unregister flags; FaceFlags -> faces/create, faces/update flags and mask; FacePersistency -> '
+        'faces/create, faces/update, written with the enum types themselves, both command formats: the expression must be buildable '
+        'and the parameters component decodes to the prefix and the number')
 ASSUMPTIONS = ['asyncio (Semaphore FIFO hand-over, sleep, wait_for, task scheduling) is represented by the event alphabet '
                'of Model/Registerer.v and exercised unmodified on the virtual-time loop',
                'make_interest / Interest signing is not modelled here (C01/C02): the harness checks on the real bytes '
